@@ -34,8 +34,9 @@ TRUSTED_COMMON = [
 
 class Task:
     def __init__(self, prop, name, fn, kind, tier, params, budget_s, functions, scope, canary, max_paths, note,
-                 shard=None):
+                 shard=None, vc_timeout_s=30):
         self.shard = shard
+        self.vc_timeout_s = vc_timeout_s
         self.prop, self.name, self.fn, self.kind, self.tier = prop, name, fn, kind, tier
         self.params, self.budget_s, self.functions = params or {}, budget_s, functions or []
         self.scope, self.canary, self.max_paths, self.note = scope, canary, max_paths, note
@@ -48,7 +49,8 @@ REGISTRY: dict[str, list[Task]] = {}
 
 
 def contract(prop, name=None, kind="sym", tier="quick", params=None, budget_s=300, functions=None,
-             scope="unbounded", canary=False, max_paths=None, note="", shards=1, shard_depth=6):
+             scope="unbounded", canary=False, max_paths=None, note="", shards=1, shard_depth=6,
+             vc_timeout_s=30):
     """Register a contract program (kind='sym'), a bounded enumeration (kind='enum') or a static analysis
     (kind='static').  `params` may be a list of dicts: one task per dict."""
     def deco(fn):
@@ -60,7 +62,8 @@ def contract(prop, name=None, kind="sym", tier="quick", params=None, budget_s=30
             for j in range(shards):
                 REGISTRY.setdefault(prop, []).append(
                     Task(prop, nm + (f"#{j}/{shards}" if shards > 1 else ""), fn, kind, tier, p, budget_s, functions,
-                         scope, canary, max_paths, note, shard=(j, shards, shard_depth) if shards > 1 else None))
+                         scope, canary, max_paths, note, shard=(j, shards, shard_depth) if shards > 1 else None,
+                         vc_timeout_s=vc_timeout_s))
         return fn
     return deco
 
@@ -97,7 +100,7 @@ def _run_task(idx_prop):
         if task.kind == "sym":
             from . import symx
             ex = symx.Explorer(task.program(), name=task.name, budget_s=task.budget_s, max_paths=task.max_paths,
-                               shard=task.shard)
+                               shard=task.shard, vc_timeout_ms=task.vc_timeout_s * 1000)
             rep = ex.run().to_dict()
             rep["kind"] = "sym"
         else:
@@ -239,13 +242,15 @@ def run_property(prop, tier="quick", seed=0, level="proof", only=None, jobs=None
                 continue
             if not r.get("crashed") and ev == 0:
                 errors.append(dict(task=t.name, errors=[dict(kind="Vacuous", msg="bounded leg evaluated nothing")]))
+            by_clause = {}
             for f in r.get("failures", []):
-                clause = f.get("clause", "bounded")
+                by_clause.setdefault(f.get("clause", "bounded"), []).append(f)
+            for clause, fs in by_clause.items():
                 k = known_match(known, prop, t.name, clause)
                 if k:
-                    known_hits.append((k, t.name, clause, f))
+                    known_hits.append((k, t.name, clause, fs[0]))
                 else:
-                    violations.append(dict(task=t.name, clause=clause, bounded=True, witnesses=[f]))
+                    violations.append(dict(task=t.name, clause=clause, bounded=True, witnesses=fs[:3]))
             for u in r.get("undecided", []):
                 undecided.append(dict(task=t.name, clause=u))
         task_rows.append(row)
